@@ -11,7 +11,8 @@ UNIVERSES = {
     # (leaves, depth, value width, only generating pairs, pair mode)
     # C03 needs every pair (also the unconvertible ones); "paired" adds deep related pairs
     ("C03", "quick"): [("LeavesQuick", 1, 1, False, "all"), ("AllBasics", 0, 1, False, "all"), ("LeavesPair", 2, 1, False, "paired")],
-    ("C03", "thorough"): [("LeavesFull", 1, 1, False, "all"), ("LeavesDeep", 2, 1, False, "all"), ("LeavesVal", 3, 1, False, "paired")],
+    # (measured: LeavesDeep at depth 2 alone gives 800 k scenarios, which the single in-process generator run does not finish in an hour)
+    ("C03", "thorough"): [("LeavesFull", 1, 1, False, "all"), ("LeavesMini", 2, 1, False, "all"), ("LeavesVal", 3, 1, False, "paired")],
     ("C11", "quick"): [("LeavesPtr", 1, 1, False, "all"), ("LeavesMini", 3, 1, True, "paired")],
     ("C11", "thorough"): [("LeavesPtr", 1, 2, False, "all"), ("LeavesPtr", 3, 1, True, "paired")],
     ("C18", "quick"): [("LeavesOdd", 1, 1, True, "all"), ("LeavesPair", 2, 1, True, "paired")],
